@@ -273,7 +273,7 @@ pub fn check(c: &Case, seams_open: bool) -> CheckResult {
         if out.iter().any(|(p, _)| p.len() >= 2 && poly_len(p, false) > 0.0) {
             return Err(format!("dash array {:?} has a non-positive (or NaN) total but the dasher emitted segments", dashes));
         }
-        let mut dt = DrawTarget::new(c.w, c.h);
+        let mut dt = blank_target(c.w, c.h);
         dt.set_transform(&to_transform(&c.xf));
         dt.stroke(&path, &Source::Solid(SolidSource { r: 255, g: 255, b: 255, a: 255 }), &style, &DrawOptions::new());
         if dt.get_data().iter().any(|p| *p != 0) {
@@ -376,7 +376,7 @@ pub fn check(c: &Case, seams_open: bool) -> CheckResult {
     o.class_if(c.path.ops.windows(2).any(|w| matches!(w[0], POp::Z) && matches!(w[1], POp::L(..))), "subpath-continued-after-close");
     o.class_if(dashes.iter().any(|d| *d >= 1.0e8) && style.dash_offset.abs() >= 1.0e8, "period-and-offset-beyond-1e8");
     if !c.aligned && !model.boundary_near_vertex && model.pieces.len() <= 150 {
-        let mut dt = DrawTarget::new(c.w, c.h);
+        let mut dt = blank_target(c.w, c.h);
         dt.set_transform(&to_transform(&c.xf));
         harmless_prelude(&mut dt, (c.w * 7 + c.h * 13 + c.path.ops.len() as i32 * 5 + dashes.len() as i32) as u32);
         dt.stroke(&path, &Source::Solid(SolidSource { r: 255, g: 255, b: 255, a: 255 }), &style, &DrawOptions::new());
